@@ -7,10 +7,11 @@
 (* prints stimulus + specified observation for the replay into the code    *)
 (* generated from /repo.                                                   *)
 (***************************************************************************)
-EXTENDS TL2Format
+EXTENDS TLJson
 
 CONSTANTS K,        \* value modifications per path
-          KMut      \* byte mutations are applied to values at depth < KMut
+          KMut,     \* byte mutations are applied to values at depth < KMut
+          KJson     \* alternative / invalid JSON spellings are derived from values at depth < KJson
 
 VARIABLE st
 
@@ -32,7 +33,12 @@ StepMut == /\ st.kind = "val" /\ st.k < KMut /\ ~TY(st.tn).origin2
                 /\ e.ok
                 /\ \E m \in Muts(e.b) : st' = [kind |-> "bytes", tn |-> st.tn, boxed |-> boxed, b |-> m, k |-> 0]
 
-Next == StepVal \/ StepMut
+StepJson == /\ st.kind = "val" /\ st.k < KJson
+            /\ \E m \in Modes \cup BadModes :
+                 /\ WJ(st.tn, NoEnv, st.v, m) # WJ(st.tn, NoEnv, st.v, "canon")
+                 /\ st' = [kind |-> "json", tn |-> st.tn, v |-> st.v, m |-> m, k |-> 0]
+
+Next == StepVal \/ StepMut \/ StepJson
 
 View == [st EXCEPT !.k = 0]
 
@@ -49,6 +55,14 @@ Payload ==
         tl1ok |-> Enc1(st.tn, NoEnv, st.v, TRUE).ok,
         tl1 |-> Bytes(Enc1(st.tn, NoEnv, st.v, TRUE)),
         tl1b |-> Bytes(Enc1(st.tn, NoEnv, st.v, FALSE)),
+        hastl2 |-> TY(st.tn).tl2,
+        tl2 |-> IF TY(st.tn).tl2 THEN Enc2(st.tn, st.v, FALSE) ELSE <<>>,
+        json |-> WJ(st.tn, NoEnv, st.v, "canon")]
+  ELSE IF st.kind = "json"
+  THEN [kind |-> "json", tn |-> st.tn, m |-> st.m, bad |-> st.m \in BadModes,
+        alt |-> WJ(st.tn, NoEnv, st.v, st.m),
+        json |-> WJ(st.tn, NoEnv, st.v, "canon"),
+        tl1 |-> Bytes(Enc1(st.tn, NoEnv, st.v, TRUE)),
         hastl2 |-> TY(st.tn).tl2,
         tl2 |-> IF TY(st.tn).tl2 THEN Enc2(st.tn, st.v, FALSE) ELSE <<>>]
   ELSE [kind |-> "bytes", tn |-> st.tn, boxed |-> st.boxed, b |-> st.b, dec |-> DecOut(st.tn, st.b, st.boxed)]
